@@ -40,7 +40,8 @@ func syncLogDB(ctx context.Context, repo *chain.Repository, logDB *logdb.LogDB, 
 
 	bestNum := best.Header.Number()
 
-	if bestNum == startPos {
+	// startPos is the first block whose logs are missing or stale; beyond best means in sync.
+	if startPos > bestNum {
 		return nil
 	}
 
@@ -126,7 +127,7 @@ func seekLogDBSyncPosition(repo *chain.Repository, logDB *logdb.LogDB) (uint32, 
 	}
 
 	if newestID == best.ID() {
-		return best.Number(), nil
+		return best.Number() + 1, nil
 	}
 
 	seekStart := block.Number(newestID)
